@@ -15,7 +15,7 @@ import (
 func init() {
 	register(&Prop{
 		ID:          "C19",
-		Explanation: "Enumerates every source of a run-time panic the analysis can name in code reachable from ServeHTTP (VTA call graph) and requires each to be discharged: explicit panic statements and single-value type assertions (reviewed table, one construct one reason), index/slice expressions whose bounds check the Go compiler's prove pass could not eliminate (compiler IR residue mapped to function+expression; discharged by a dominating length guard found on every path or by the reviewed table), Must* calls with dynamic arguments (discharged when the argument is a constant template over regexp.QuoteMeta), dereferences of the nullable SessionState timestamps (non-nil fact by nil test, setter or fresh address on every path, or at every call site; includes passing them to helpers that dereference unguarded), and pointers filled by JSON/claims decoders used without a nil test; plus scope presence (NewScope is the first pre-auth middleware, installed before any route) and agreement between the SameSite values validation accepts and ParseSameSite handles. Added during the build: P6 — in every module function, the pointer/interface result of a fallible call is dereferenced (directly, through one phi, or by a module callee that dereferences its parameter unguarded) only behind the err==nil edge of that call's error, a nil test of the error merged with it, or a non-nil test of the result; logger.Fatal*/os.Exit arms count as terminating. Round 3: integer divisions by non-constants and assignments into maps not made locally are scanned as P7/P8. Round 4: validateCookie judges cookie_samesite as configured — it does not rewrite the field of its own copy before comparing (under samesite-agreement). Round 5: a module function whose request-reachable caller dereferences the pointer result after checking only the error never returns (nil, nil) (P9).",
+		Explanation: "Enumerates every source of a run-time panic the analysis can name in code reachable from ServeHTTP (VTA call graph) and requires each to be discharged: explicit panic statements and single-value type assertions (reviewed table, one construct one reason), index/slice expressions whose bounds check the Go compiler's prove pass could not eliminate (compiler IR residue mapped to function+expression; discharged by a dominating length guard found on every path or by the reviewed table), Must* calls with dynamic arguments (discharged when the argument is a constant template over regexp.QuoteMeta), dereferences of the nullable SessionState timestamps (non-nil fact by nil test, setter or fresh address on every path, or at every call site; includes passing them to helpers that dereference unguarded), and pointers filled by JSON/claims decoders used without a nil test; plus scope presence (NewScope is the first pre-auth middleware, installed before any route) and agreement between the SameSite values validation accepts and ParseSameSite handles. Added during the build: P6 — in every module function, the pointer/interface result of a fallible call is dereferenced (directly, through one phi, or by a module callee that dereferences its parameter unguarded) only behind the err==nil edge of that call's error, a nil test of the error merged with it, or a non-nil test of the result; logger.Fatal*/os.Exit arms count as terminating. Round 3: integer divisions by non-constants and assignments into maps not made locally are scanned as P7/P8. Round 4: validateCookie judges cookie_samesite as configured — it does not rewrite the field of its own copy before comparing (under samesite-agreement). Round 5: a module function whose request-reachable caller dereferences the pointer result after checking only the error never returns (nil, nil) (P9). Round 6: every caller of getAuthenticatedSession dereferences the session only behind a non-nil test (P10); index loops over a decoded local are discharged automatically.",
 		NotDecided:  "panics inside third-party libraries on hostile bytes (msgpack, lz4, go-oidc, gorilla); nil-map writes, integer division, channel misuse and resource exhaustion; bounds checks inside inlined standard-library code are attributed to the trusted library.",
 		Run:         runC19,
 	})
@@ -452,6 +452,7 @@ func runC19(c *Ctx) {
 	r.Rule("P6-result-before-errcheck", "a pointer/interface result of a fallible call is dereferenced only behind the err==nil edge of that call's error (or a non-nil test of the result)", 57)
 	r.Rule("scope-presence", "GetRequestScope's result is non-nil for every routed request: NewScope is the first pre-auth middleware", 2)
 	r.Rule("P9-value-or-error", "the callee side of P6: a module function whose request-reachable caller dereferences the pointer result after checking only the error never returns (nil, nil)", 10)
+	r.Rule("P10-session-may-be-absent", "getAuthenticatedSession answers (nil, nil) for a bypassed request without credentials: every caller dereferences the session only behind a non-nil test of it", 3)
 	r.Rule("samesite-agreement", "every SameSite value validation accepts is handled by ParseSameSite without panicking; validation judges the value as configured", 2)
 
 	rule := "P-sites"
@@ -505,6 +506,7 @@ func runC19(c *Ctx) {
 		}
 		c.checkNilNilPairs("P9-value-or-error", reach)
 	}
+	runC19P10(c, "P10-session-may-be-absent")
 
 	// ---- scope presence -----------------------------------------------------------------------
 	rule = "scope-presence"
@@ -634,3 +636,44 @@ func runC19(c *Ctx) {
 }
 
 func strconvQuote(s string) string { return "\"" + s + "\"" }
+
+// runC19P10: P9 sees a (nil, nil) pair only when the callee returns literal nils. getAuthenticatedSession returns the
+// request scope's session — nil when a skip-auth route, a trusted address or a preflight lets a request without
+// credentials through — together with a nil error. That "no error does not mean a session" is a reviewed fact about
+// this one function; the rule holds every caller to it: each dereference of the session result (a field access, or
+// handing it to a module function that dereferences its parameter unguarded) is dominated by a non-nil test of it.
+func runC19P10(c *Ctx, rule string) {
+	gas := c.Fn(rule, "(*main.OAuthProxy).getAuthenticatedSession")
+	if gas == nil {
+		return
+	}
+	n := 0
+	for _, cs := range c.callersOf(gas) {
+		call, ok := cs.(*ssa.Call)
+		if !ok || call.Referrers() == nil {
+			continue
+		}
+		for _, r := range *call.Referrers() {
+			ex, ok := r.(*ssa.Extract)
+			if !ok || ex.Index != 0 || ex.Referrers() == nil {
+				continue
+			}
+			n++
+			key := "session-nil-tested|" + fnKey(call.Parent())
+			_, nonNil := nilTestEdges(ex)
+			bad := false
+			for _, u := range *ex.Referrers() {
+				if derefUse(c, u, ex) && !dominatedByAny(u.Block(), nonNil) {
+					bad = true
+					c.bad(rule, key, u, "the session returned by getAuthenticatedSession is dereferenced without a non-nil test: a request let through without credentials (skip-auth route, trusted address, preflight) has no session and panics here", nil, 0)
+				}
+			}
+			if !bad {
+				c.ok(rule, key, call, "every dereference of the session is behind a non-nil test (or there is none)")
+			}
+		}
+	}
+	if n == 0 {
+		c.R.Unknown(rule, "session-nil-tested|none", "-", "no caller of getAuthenticatedSession uses its session result")
+	}
+}
